@@ -247,6 +247,11 @@ class Engine:
         cur = self.current_func[-1] if self.current_func else None
         if cur is not None and cur.node is not None and not self.spec_mode and "__closure__" not in st.frames[-1]:
             if name in self.local_names(cur):
+                # a local helper function (`def helper(...)` inside the function under contract) that the
+                # executed slice did not define: a limitation of slicing, not an unbound local
+                if any(isinstance(x, (ast.FunctionDef, ast.AsyncFunctionDef)) and x.name == name and x is not cur.node
+                       for x in ast.walk(cur.node)):
+                    raise Unsupported(f"local helper function {name} is defined outside the executed part of the body")
                 return Raised(ExcVal("UnboundLocalError", (name,)))
         if cur is not None and cur.cls is not None and cur.qualname.endswith("<class>"):
             # evaluation of a class-level initialiser: names of the class body come first
